@@ -32,7 +32,7 @@ type genResp struct {
 	Trailers []hfield
 	Head     bool
 	// HeadDelay: the backend thinks this long before it sends its status line
-	HeadDelay time.Duration
+	HeadDelay   time.Duration
 	BigTrailers bool
 }
 
